@@ -24,9 +24,9 @@ type vDesc struct {
 	inactive bool // an inactive description denotes the empty set (used for guarded layers)
 	op       int  // vKOp: vOpAnd / vOpOr / vOpXor / vOpAndNot
 	l, r     *vDesc
-	kind  int
-	elems []uint16 // array
-	ivs   []vIv    // run
+	kind     int
+	elems    []uint16 // array
+	ivs      []vIv    // run
 	// bitmap: concrete base pattern + free words
 	pat     int
 	freeIdx []int
@@ -384,9 +384,10 @@ func vGenBitmapC(pat int, freeIdx []int, nbits int) (*bitmapContainer, *vDesc) {
 // ---------- shapes: a small vocabulary addressed by integer codes (harness parameters)
 
 // shape codes (per kind)
-//   array : 1..4 = A(n) fully symbolic; 10 = A*(17;2;step 3000); 11 = A*(70;2;step 900); 12 = A*(4095;2;step 16); 13 = A*(4096;2;step 15);
-//   run   : 1..3 = R(r; L<=param "L"); 11..13 = R(r; free lengths); 20 = full; 21 = anchored long run [0+δ, 65528+δ]; 22 = two anchored long runs
-//   bitmap: 0 = B(lo; {0,64}; 2) 1 = B(lo;{0,65};4) 2 = B(thr;{0,1};4) 3 = B(hi;{0,1023};2) 4 = B(alt;{5};2) 5 = B(mid;{312,406};3) 6 = B(lo;{0,1,64};6)
+//
+//	array : 1..4 = A(n) fully symbolic; 10 = A*(17;2;step 3000); 11 = A*(70;2;step 900); 12 = A*(4095;2;step 16); 13 = A*(4096;2;step 15);
+//	run   : 1..3 = R(r; L<=param "L"); 11..13 = R(r; free lengths); 20 = full; 21 = anchored long run [0+δ, 65528+δ]; 22 = two anchored long runs
+//	bitmap: 0 = B(lo; {0,64}; 2) 1 = B(lo;{0,65};4) 2 = B(thr;{0,1};4) 3 = B(hi;{0,1023};2) 4 = B(alt;{5};2) 5 = B(mid;{312,406};3) 6 = B(lo;{0,1,64};6)
 func vGenContainer(kind, shape int) (container, *vDesc) {
 	c, d := vGenContainer0(kind, shape)
 	if rc, ok := c.(*runContainer16); ok && vsym.Param("eff") == 1 {
